@@ -148,6 +148,30 @@ Proof.
   - left. rewrite rev_app_distr. cbn [rev app]. rewrite last_last. reflexivity.
 Qed.
 
+(* ---- legacy_position_transform: strictly increasing positions starting above 0 ---- *)
+
+Fixpoint increasing_from (last : Z) (l : list Z) : Prop :=
+  match l with [] => True | p :: t => last < p /\ increasing_from p t end.
+
+Theorem legacy_increasing : forall rounded last, increasing_from last (legacy_transform last rounded).
+Proof.
+  induction rounded as [|p t IH]; intros last; cbn [legacy_transform increasing_from]; [exact I|].
+  split; [|apply IH]. destruct (p <=? last) eqn:E; [lia|apply Z.leb_gt in E; lia].
+Qed.
+
+Theorem legacy_keeps_increasing : forall rounded last, increasing_from last rounded ->
+  legacy_transform last rounded = rounded.
+Proof.
+  induction rounded as [|p t IH]; intros last H; [reflexivity|]. cbn in *. destruct H as [H1 H2].
+  destruct (p <=? last) eqn:E; [apply Z.leb_le in E; lia|]. rewrite IH by assumption. reflexivity.
+Qed.
+
+Example legacy_example : legacy_transform 0 [0; 0; 1; 5; 5; 4] = [1; 2; 3; 5; 6; 7].
+Proof. reflexivity. Qed.
+
+Example chunks_example : chunks [2; 1; 3]%nat [10; 11; 12; 13; 14; 15] = [[10; 11]; [12]; [13; 14; 15]].
+Proof. reflexivity. Qed.
+
 Example mapping_examples :
   let nodes := [(true, 1); (true, 0); (true, 1); (false, -1); (true, 0); (false, 2)] in
   make_sample_mapping nodes 3 None None = Ok [[1; 4]; [0; 2]]
